@@ -9,6 +9,7 @@
 (* step.                                                                     *)
 (***************************************************************************)
 EXTENDS Reject, TLC, Json, IOUtils
+HK == INSTANCE Heck
 CONSTANTS MaxLen
 Kws == {"message", "to_string", "disabled", "serialize", "props"}
 VARIABLES metas, attrs, i, seen, outcome
@@ -31,4 +32,5 @@ InstancesOutsideDomain == (\A x \in Instances : ~InDomain(x)) /\ (\A x \in Contr
 ContextsHaveControls == \A x \in Instances : x.rule \notin {"non_enum"} => \E c \in Controls : c.derive = x.derive /\ c.ctx = x.ctx
 ========================================================================\* facts about the (constant) instance list: checked once, when the model is loaded
 ASSUME InstancesOutsideDomain /\ ContextsHaveControls
+ASSUME KnownStyles = HK!AcceptedStyles /\ NearMissStyles \cap HK!AcceptedStyles = {}
 =====
